@@ -42,6 +42,14 @@ Theorem C10_rejected_no_ready_no_messages : forall cf app keys wf zt ct dt0 repl
 Proof. exact rejected_run. Qed.
 Print Assumptions C10_rejected_no_ready_no_messages.
 
+(* ... and likewise when the first read holds a header block that exceeds 16 KiB, terminated or not: the run reports a
+   ProtocolError and yields no Ready and no message event, whatever the application does *)
+Theorem C10_oversize_block_no_ready_no_messages : forall cf app keys wf zt ct dt0 d rest,
+  16384 < N.of_nat (length d) -> (forall i, find_sep CRLFCRLF d = Some i -> 16384 < N.of_nat (i + 4)) ->
+  Forall quiet (evs (k_tr (run cf app (init keys wf zt ct) CnOk (StRead dt0 (RData d) :: rest)))).
+Proof. exact too_long_run. Qed.
+Print Assumptions C10_oversize_block_no_ready_no_messages.
+
 Theorem C10_header_block_limit : forall d, 16384 < N.of_nat (length d) ->
   (forall i, find_sep CRLFCRLF d = Some i -> 16384 < N.of_nat (i + 4)) ->
   fp_pull fp_init d = Err PE_HeaderTooLong.
